@@ -67,7 +67,7 @@ func ifaceMods(c *ssa.CallCommon) *modset {
 		m.addGhost("#out", "#outlen", "#wfails")
 		return m
 	case isNamed(t, "io", "Reader") && c.Method.Name() == "Read":
-		m.addGhost("#in", "#inpos", "#ineof", "#rdzero")
+		m.addGhost("#in", "#inpos", "#ineof", "#rdzero", "#rdcount", "#rdn")
 		m.fams["E$uint8"] = "Int"
 		return m
 	case isVisitorIface(t):
@@ -177,6 +177,8 @@ func (fr *Frame) readerRead(x *ssa.Call, p Val, st *State, rch Term) Val {
 		nw, p.C[0], p.C[0], n, in, pos, p.C[0], heap, nw))
 	st.m["E$uint8"] = nw
 	vc.set(st, "#inpos", add(pos, n))
+	vc.set(st, "#rdcount", add(vc.get(st, "#rdcount"), "1"))
+	vc.set(st, "#rdn", n)
 	rz := vc.get(st, "#rdzero")
 	vc.set(st, "#rdzero", ite(and(eq(n, "0"), eq(e.C[0], "0")), add(rz, "1"), rz))
 	return Val{T: x.Type(), C: []Term{n, e.C[0], e.C[1]}}
